@@ -2,6 +2,7 @@
   The prev/next finder's decision about one anchor (Model/LinkScore.lean), shared by C16 and C17.
 -/
 import Distill.Proofs.LinkScore
+import Distill.Model.PageInfo
 import Distill.Gen.Funcs
 import Distill.Gen.Tables
 namespace Distill.LinkScoreProps
@@ -46,6 +47,61 @@ theorem labelled_anchor_wins (next : Bool) (A B : Facts)
     (hB : own next (dataOf B) = false) :
     ∃ sa sb, verdict next A = .cand sa ∧ verdict next B = .cand sb ∧ sa ≥ sb + 41 ∧ (A.inFolder = true → sa ≥ 50) :=
   labelled_beats_numbered next A B hpA hqA hpB hqB hctx hA hAn hAd hB
+
+/-! ### page-number links (`getPageInfoAndText`) -/
+
+/-- `getPageInfoAndText` and the walk over the neighbouring leaves as they stand -/
+theorem page_number_bodies_tie : Gen.pageNumberBodies = Gen.pageNumberBodiesExpected := by rfl
+
+/-- **A page-number link is a position holder or a same-host URL**: whatever the anchor, the page info
+the finder records has a number between 0 and 100 and its URL is either the empty / `javascript:`
+href itself or the cleaned form of an href that parses and whose host is the page's host. -/
+theorem page_info_provenance (text : String) (h : PageInfo.H) (n : Int) (u : String)
+    (hp : PageInfo.pageInfo text h = some (n, u)) :
+    0 ≤ n ∧ n ≤ 100 ∧
+    ((u = h.resolved ∧ (h.resolved = "" ∨ PageInfo.isJs h.resolved = true)) ∨
+     (u = h.cleaned ∧ h.requestOK = true ∧ h.sameHost = true ∧ h.parseOK = true)) := by
+  unfold PageInfo.pageInfo at hp
+  split at hp
+  · cases hp
+  · rename_i m _
+    unfold PageInfo.maxNumForPageParam at hp
+    split at hp
+    · cases hp
+    · rename_i hr
+      simp only [Bool.or_eq_true, decide_eq_true_eq, not_or, Int.not_lt, Int.not_lt] at hr
+      split at hp
+      · rename_i hj
+        simp only [Option.some.injEq, Prod.mk.injEq] at hp
+        obtain ⟨rfl, rfl⟩ := hp
+        refine ⟨hr.1, by omega, Or.inl ⟨rfl, ?_⟩⟩
+        simp only [Bool.or_eq_true, beq_iff_eq] at hj
+        exact hj
+      · split at hp
+        · cases hp
+        · rename_i hs
+          split at hp
+          · cases hp
+          · rename_i hq
+            simp only [Option.some.injEq, Prod.mk.injEq] at hp
+            obtain ⟨rfl, rfl⟩ := hp
+            simp only [Bool.or_eq_true, Bool.not_eq_eq_eq_not, Bool.not_true, not_or, Bool.not_eq_false] at hs hq
+            exact ⟨hr.1, by omega, Or.inr ⟨rfl, hs.1, hs.2, hq⟩⟩
+
+/-- a link to another host is never a page-number link -/
+theorem other_host_is_no_page_link (text : String) (h : PageInfo.H) (hne : h.resolved ≠ "")
+    (hjs : PageInfo.isJs h.resolved = false) (hh : h.sameHost = false) : PageInfo.pageInfo text h = none := by
+  unfold PageInfo.pageInfo
+  split
+  · rfl
+  · split
+    · rfl
+    · have : (h.resolved == "") = false := by simpa using hne
+      simp [this, hjs, hh]
+
+example : PageInfo.pageInfo "[3]" ⟨"http://e.com/a?page=3#x", true, true, true, "http://e.com/a?page=3"⟩ = some (3, "http://e.com/a?page=3") := by
+  decide +kernel
+example : PageInfo.pageInfo "101" ⟨"http://e.com/a?page=101", true, true, true, "http://e.com/a?page=101"⟩ = none := by decide +kernel
 
 /-! non-vacuity: page 2 of `http://e.com/a?page=N` with anchors `Next` → page 3 and `4` → page 4
 inside `<div class="pagination">` -/
